@@ -9,6 +9,7 @@ model on the private state of every node after every step.
 import Ajson.Spec.WF
 import Ajson.Proofs.MutBasics
 import Ajson.Proofs.WFInv
+import Ajson.Proofs.WFRemove
 import Ajson.Model.Decode
 
 namespace Ajson.Props.C05
@@ -19,10 +20,12 @@ open Ajson Ajson.Heap Ajson.Proofs
 `Struct` (Proofs/WFInv.lean) is the propositional form of `Heap.wfNode` for every allocated node: children are allocated, name
 their parent and sit under the key their `key`/`index` says; keys are pairwise different; an array's keys are "0" … "n-1"; scalars
 have no children; a node's parent lists it; dirtiness is closed upwards; a clean node has its source and only clean children.
-Proved so far for: `mark`, SetNull/SetNumeric/SetString/SetBool (any receiver — the replaced children are detached),
-deleting a member of an object, AppendObject of a detached node under a new key, AppendArray of a detached node.
-Not yet proved: deletion from arrays (the renumbering loop), appending an attached node (move), replacing an existing key,
-SetArray/SetObject, SetNode, the constructors with adopted children, and acyclicity. -/
+Proved for: `mark`; SetNull/SetNumeric/SetString/SetBool (any receiver — the replaced children are detached); every deletion
+— DeleteNode, DeleteKey/PopKey, DeleteIndex/PopIndex, Delete — from objects and from arrays (the renumbering loop of `dropindex`
+is analysed with the children map abstracted to a partial function from positions to nodes: later elements move down by one,
+keys and indexes stay "0" … "n-2"); AppendObject of a detached node under a new key; AppendArray of a detached node; cache fills.
+Not yet proved: appending an attached node (the move = delete + append above, but done in one call), replacing an existing
+key in one call, SetArray/SetObject, SetNode, the constructors with adopted children, and acyclicity. -/
 
 theorem C05_inv_mark {h : Heap} (hs : Struct h) (n : Nat) (hn : n < h.size) : Struct (h.mark n) := (hs.mark n hn).1
 
@@ -34,6 +37,18 @@ theorem C05_inv_set_scalar {h : Heap} (hs : Struct h) (n : Nat) (hn : n < h.size
 theorem C05_inv_delete_member {h : Heap} (hs : Struct h) (n value : Nat) (hv : value < h.size)
     (hpar : (h.get value).parent = some n) (hobj : (h.get n).type = .object) :
     Struct (h.remove n value).1 ∧ (h.remove n value).2 = .ok () := struct_remove_object hs n value hv hpar hobj
+
+/-- **every deletion keeps the invariant** — from an object or from an array (where the later elements are renumbered) -/
+theorem C05_inv_remove {h : Heap} (hs : Struct h) (n value : Nat) (hv : value < h.size) (hpar : (h.get value).parent = some n) :
+    Struct (h.remove n value).1 ∧ (h.remove n value).2 = .ok () := struct_remove hs n value hv hpar
+
+theorem C05_inv_popKey {h : Heap} (hs : Struct h) (n : Nat) (hn : n < h.size) (key : Bytes) : Struct (h.popKey (some n) key).1 :=
+  struct_popKey hs n hn key
+
+theorem C05_inv_popIndex {h : Heap} (hs : Struct h) (n : Nat) (hn : n < h.size) (i : Int) : Struct (h.popIndex (some n) i).1 :=
+  struct_popIndex hs n hn i
+
+theorem C05_inv_delete {h : Heap} (hs : Struct h) (n : Nat) (hn : n < h.size) : Struct (h.delete n).1 := struct_delete hs n hn
 
 /-- AppendObject of a detached node under a key the object does not have keeps the invariant and succeeds -/
 theorem C05_inv_append_object {h : Heap} (hs : Struct h) (n value : Nat) (hn : n < h.size) (hv : value < h.size)
